@@ -12,6 +12,7 @@ Expressions travel in postfix, comma separated: `a<mask>` atom, `&` `|` binary, 
 
 ops:  model <expr> <probeBits> <concreteBits>   the transcribed algorithm's observables
       spec  <expr> <probeBits> <concreteBits>   the spec's value-default pair observables
+      mvals <expr> <probeBits>                  disjunct values only (expressions with nested marks)
       (element ids are a linear extension of the order: a value's own id is the highest bit
       of its mask; <concreteBits> has the id bits of the concrete elements, <probeBits> those
       of the concrete MINIMAL elements — for a minimal p, "v unifies with p" is "p's bit is in
@@ -85,6 +86,12 @@ def handle (ws : List String) : String :=
       let o := eval bits e
       s!"vals={showNats o.values} defs={showNats o.defaults} has={boolStr o.hasDefault} acc={orAll o.values &&& pb} dacc={orAll o.defaultSet &&& pb} cls={clsOf o.resolve (conc c)}"
     | _, _, _ => "bad-op"
+  | ["mvals", es, ps] =>
+    match parseExpr es, ps.toNat? with
+    | some e, some pb =>
+      let o := eval bits e
+      s!"vals={showNats o.values} acc={orAll o.values &&& pb}"
+    | _, _ => "bad-op"
   | ["spec", es, ps, cs] =>
     match parseExpr es, ps.toNat?, cs.toNat? with
     | some e, some pb, some c =>
